@@ -202,23 +202,35 @@ def check_lists(part, tier, acc):
         variables = [puan.variable(i, BMENU[j % 6]) for j, i in enumerate(ctx)]
         n = len(ctx)
         masks = list(itertools.product((0, 1), repeat=n))
-        for mask in masks:
+        # entries other than 0/1 (what p + q, p - q of two from_list vectors hold): only the 1-entries are listed
+        wide = [m for m in itertools.product((-1, 0, 1, 2) if n <= 3 else (0, 1, 2), repeat=n) if any(v not in (0, 1) for v in m)]
+        for mk, mask in enumerate(masks + wide):
             acc.n("traces")
             acc.n("transitions")
             case = {"kind": "to_list", "ctx": ctx, "mask": mask}
             try:
-                got = pnd.boolean_ndarray(np.array(mask), variables=variables).to_list()
+                if mk < len(masks) and mk % 3 == 2:
+                    arr = pnd.boolean_ndarray(np.array(mask, dtype=bool), variables=variables)
+                elif mk >= len(masks) and min(mask) >= 0 and mk % 2 == 0:
+                    # the same entries reached by arithmetic on two 0/1 vectors
+                    arr = pnd.boolean_ndarray(np.array([1 if v >= 1 else 0 for v in mask]), variables=variables) + \
+                        pnd.boolean_ndarray(np.array([1 if v >= 2 else 0 for v in mask]), variables=variables)
+                else:
+                    arr = pnd.boolean_ndarray(np.array(mask), variables=variables)
+                got = arr.to_list()
             except BaseException as e:
                 acc.violation(None, case, {"what": "to_list raised", "exc": repr(e)})
                 continue
-            want = [variables[j] for j in range(n) if mask[j]]
+            want = [variables[j] for j in range(n) if mask[j] == 1]
+            if mk >= len(masks):
+                acc.nontriv(("tl", tuple(map(str, ctx)), mask))
             if len(got) != len(want) or any(g is not w and (g.id != w.id or g.bounds != w.bounds) for g, w in zip(got, want)) or \
                     [(_k(g.id), g.bounds.as_tuple()) for g in got] != [(_k(w.id), w.bounds.as_tuple()) for w in want]:
                 acc.violation(None, case, {"what": "to_list does not return exactly the variables at the 1-entries", "got": repr(got), "want": repr(want)})
         if n >= 2:
-            two = np.array([masks[1], masks[-2], masks[len(masks) // 2]])
-            got = pnd.boolean_ndarray(two, variables=variables, index=[puan.variable(f"r{i}") for i in range(3)]).to_list()
-            want = [[variables[j] for j in range(n) if row[j]] for row in two.tolist()]
+            two = np.array([masks[1], masks[-2], masks[len(masks) // 2], wide[len(wide) // 2], wide[-2]])
+            got = pnd.boolean_ndarray(two, variables=variables, index=[puan.variable(f"r{i}") for i in range(5)]).to_list()
+            want = [[variables[j] for j in range(n) if row[j] == 1] for row in two.tolist()]
             acc.n("transitions")
             if [[(_k(g.id), g.bounds.as_tuple()) for g in r_] for r_ in got] != [[(_k(w.id), w.bounds.as_tuple()) for w in r_] for r_ in want]:
                 acc.violation(None, {"kind": "to_list2d", "ctx": ctx}, {"what": "2-D to_list differs", "got": repr(got), "want": repr(want)})
